@@ -172,6 +172,10 @@ def run_case(i, rng, tier):
             p = C.fill_all(S.build(sp), ch)
         partials.append(p)
 
+    # the partial results are inputs: whatever is done with the results reduced from them (further merges in place,
+    # further fills), they keep the content they had
+    partial_texts = [O.text(p_) for p_ in partials]
+
     def reduce_sched(s):
         if isinstance(s, int):
             return partials[s], list(chunks[s])
@@ -231,6 +235,14 @@ def run_case(i, rng, tier):
                     failures.append(C.fail(None, "after filling %d more records the %s result differs from the whole: %s" % (len(more), nm_, C.fmt_diff(d)), more=C.stream_json(more), **wit))
         except Exception as e:  # noqa: BLE001
             failures.append(C.fail(None, "filling after the reduction raised %s: %s" % (type(e).__name__, str(e)[:200]), **wit))
+
+    # in-place folds and the fills that followed must not have reached back into the partial results
+    for j_, (p_, t_) in enumerate(zip(partials, partial_texts)):
+        counters["partials_checked_unchanged"] = counters.get("partials_checked_unchanged", 0) + 1
+        if O.text(p_) != t_:
+            d_ = O.diff(json.loads(t_), json.loads(O.text(p_)), 0.0, exact=True)
+            failures.append(C.fail(None, "partial result %d changed after it had been merged (+, combine, += into an accumulator) and the results were filled further: %s" % (j_, C.fmt_diff(d_)), **wit))
+            break
 
     # identity, commutativity, associativity on the partials
     a = partials[0]
